@@ -268,3 +268,11 @@ mod tests {
         quickcheck(prop as fn(_, _) -> _)
     }
 }
+
+#[cfg(libp2p_verif)]
+impl KeyBytes {
+    /// Verification hook: a key with the given raw bytes (no hashing).
+    pub fn verif_from_raw(bytes: [u8; 32]) -> Self {
+        KeyBytes(Array::from(bytes))
+    }
+}
